@@ -274,6 +274,16 @@ func runC19(c *Ctx) {
 			sel(hard, s, p[0], p[1], 0, p[2])
 		}
 	}
+	// wide spreads of confirmations: old dust (tiny value, huge value-age), big young coins, and a demanding minimum
+	// average value-age -- the priority selector's windows, top-ups and extensions all come into play
+	for k := 0; k < c.Pick(1500, 20000); k++ {
+		n := 2 + r.Intn(5)
+		var l []interface{}
+		for i := 0; i < n; i++ {
+			l = append(l, coinRec(i+1, []int64{1, 5, 10, 50, 3}[r.Intn(5)], []int64{0, 1, 20, 160, 1500, 5}[r.Intn(6)]))
+		}
+		sel(l, "MinPriority", []int{1, 5, 10, 11, 15, 60}[r.Intn(6)], 1+r.Intn(4), []int{0, 1, 5, 10}[r.Intn(4)], []int{10, 100, 850, 1000, 2000, 300}[r.Intn(6)])
+	}
 	// exact-match targets with a large minimum change: any extra coin invalidates the total
 	found := []interface{}{coinRec(1, 2, 1), coinRec(2, 0, 2), coinRec(3, 5, 0), coinRec(4, 1, 0), coinRec(5, 0, 3), coinRec(6, 3, 1), coinRec(7, 0, 0),
 		coinRec(8, 1, 0), coinRec(9, 4, 3), coinRec(10, 3, 0), coinRec(11, 5, 2)}
